@@ -77,7 +77,7 @@ SCHEMES = ("exponentiated", "expanded")
 
 def budget(tier):
     if tier == "quick":
-        return dict(max_examples=6000, shards=16, wall_s=80, shrink_s=40)
+        return dict(max_examples=6000, shards=16, wall_s=150, shrink_s=30)
     return dict(max_examples=32000, shards=16, wall_s=850, shrink_s=150)
 
 
@@ -88,6 +88,7 @@ def strategy_kernel(tier):
     from hypothesis import strategies as st
 
     from vf import strategies as S
+    from vf.core import jhash
 
     @st.composite
     def kernel(draw):
@@ -111,86 +112,81 @@ def strategy_kernel(tier):
             a1 = a0 * math.exp(-c)
         kind = draw(st.sampled_from(("scaling",) * 5 + ("xi1", "threshold") + ("scaling",) * 5))
         xi2 = 1.0 if kind == "xi1" else math.exp(draw(S.floats(0.1, math.log(4))) * (1 if draw(st.booleans()) else -1))
-        return {
-            "half": "K", "kind": kind, "sector": sector, "order": [n, m], "nf": draw(st.integers(3, 6)), "method": method,
+        case = {
+            "half": "K", "kind": kind, "sector": sector, "order": [n, m], "nf": draw(st.sampled_from((4, 5, 3, 6))), "method": method,
             "iters": iters, "max_order": n + draw(st.integers(0, 6)), "a": [a0, a1], "xi2": xi2,
-            "seed": draw(st.integers(0, 2**31 - 1)), "aem": draw(S.log_floats(1e-4, 1e-3)) if qed else 0.0,
-            "running": draw(st.booleans()) if qed else False, "lambdas": [1 / 8, 1 / 16, 1 / 32, 1 / 64],
+            "aem": draw(S.log_floats(1e-4, 1e-3)) if qed else 0.0, "running": draw(st.booleans()) if qed else False,
+            "lambdas": [1 / 8, 1 / 16, 1 / 32, 1 / 64],
         }
+        # Hypothesis favours simple values (measured: 18 % of drawn seeds are 0, half of the couplings sit on a bound):
+        # mix the drawn seed with a hash of all other fields so that towers differ whenever anything differs
+        case["seed"] = (draw(st.integers(0, 2**31 - 1)) ^ int(jhash(case), 16)) % 2**31
+        return case
 
     return kernel()
+
+
+def e2e_case(tier, seed):
+    """End-to-end case as a function of one integer drawn by Hypothesis (numpy Generator seeded with it)."""
+    rng = np.random.default_rng(int(seed))
+    quick = tier == "quick"
+
+    def pick(seq):
+        return seq[int(rng.integers(0, len(seq)))]
+
+    def uni(lo, hi):
+        return float(rng.uniform(lo, hi))
+
+    kind = pick(("scaling",) * 5 + ("xi1",) + (() if quick else ("threshold",)))
+    qed = pick((0, 0, 0, 1, 2)) if kind != "threshold" else 0
+    n = pick((1, 2, 2) if quick else (1, 2, 2, 3, 3))
+    if qed and n == 1:
+        n = 2  # (1,m): both schemes leave the QCD part untouched, nothing to measure
+    scheme = pick(SCHEMES)
+    xi2 = 1.0 if kind == "xi1" else math.exp(uni(0.35, math.log(4)) * pick((1, -1)))
+    method = "iterate-exact" if qed else pick(METHODS_S)
+    nf = pick((3, 4)) if kind == "threshold" else pick((3, 4, 5))
+    case = {
+        "half": "E", "kind": kind, "order": [n, qed], "scheme": scheme, "xi2": xi2, "method": method, "nf": nf,
+        "mu0": uni(3.0, 8.0), "alphas": uni(0.2, 0.3), "alphaem": 0.0075, "running": bool(pick((False, True))) if qed else False,
+        "iters": pick((10, 11, 12)), "seed": int(seed),
+    }
+    if kind == "threshold":
+        # fixed scales across one matching (thorough tier only): mu0 below, target above the (nf+1) threshold or reverse
+        pdf = {}
+        for q in range(1, nf + 1):
+            pdf[str(q)] = {"sea": [uni(0.1, 0.6), uni(0.0, 0.5), uni(4.0, 7.0), uni(0.0, 2.0)], "val": [uni(0.3, 2.0), uni(0.5, 1.0), uni(3.0, 5.0), uni(0.0, 2.0)]}
+        pdf["21"] = {"sea": [uni(0.5, 3.0), uni(0.0, 0.3), uni(4.0, 7.0), uni(0.0, 2.0)]}
+        case.update(
+            pdf=pdf, up=bool(pick((False, True))), mass=uni(4.0, 6.0), inv=pick(("exact", "expanded")), npts=pick((8, 9, 10)),
+            deg=pick((2, 3)), lambdas=[1.0, 0.5, 0.25] if n == 3 else [1.0, 0.5, 0.25, 0.125], method=pick(("iterate-exact", "truncated")),
+        )
+    else:
+        x0 = uni(0.05, 0.3)
+        three = bool(pick((False, True))) and not qed
+        case.update(
+            dt1=uni(0.4, 0.6 if qed else 0.8), up=bool(pick((False, True))), xgrid=[x0, math.sqrt(x0), 1.0] if three else [x0, 1.0],
+            lambdas=[1.0, 0.5, 0.25] if (qed or n == 3) else [1.0, 0.5, 0.25, 0.125],
+        )
+    return case
 
 
 def strategy_e2e(tier):
     from hypothesis import strategies as st
 
-    from vf import strategies as S
-
-    quick = tier == "quick"
-
-    @st.composite
-    def e2e(draw):
-        kind = draw(st.sampled_from(("scaling",) * 5 + ("xi1",) + (() if quick else ("threshold",))))
-        qed = draw(st.sampled_from((0, 0, 0, 1, 2))) if kind != "threshold" else 0
-        n = draw(st.sampled_from((1, 2, 2) if quick else (1, 2, 2, 3, 3)))
-        if qed and n == 1:
-            n = 2  # (1,m): both schemes leave the QCD part untouched, nothing to measure
-        scheme = draw(st.sampled_from(SCHEMES))
-        xi2 = 1.0 if kind == "xi1" else math.exp(draw(S.floats(0.35, math.log(4))) * (1 if draw(st.booleans()) else -1))
-        method = "iterate-exact" if qed else draw(st.sampled_from(METHODS_S))
-        nf = draw(st.sampled_from((3, 4))) if kind == "threshold" else draw(st.integers(3, 5))
-        mu0 = draw(S.floats(3.0, 8.0))
-        alphas = draw(S.floats(0.2, 0.3))
-        case = {
-            "half": "E", "kind": kind, "order": [n, qed], "scheme": scheme, "xi2": xi2, "method": method, "nf": nf,
-            "mu0": mu0, "alphas": alphas, "alphaem": 0.0075, "running": draw(st.booleans()) if qed else False,
-            "iters": draw(st.integers(10, 12)),
-        }
-        if kind == "threshold":
-            pdf = {}
-            for q in range(1, nf + 1):
-                pdf[str(q)] = {
-                    "sea": [draw(S.floats(0.1, 0.6)), draw(S.floats(0.0, 0.5)), draw(S.floats(4.0, 7.0)), draw(S.floats(0.0, 2.0))],
-                    "val": [draw(S.floats(0.3, 2.0)), draw(S.floats(0.5, 1.0)), draw(S.floats(3.0, 5.0)), draw(S.floats(0.0, 2.0))],
-                }
-            pdf["21"] = {"sea": [draw(S.floats(0.5, 3.0)), draw(S.floats(0.0, 0.3)), draw(S.floats(4.0, 7.0)), draw(S.floats(0.0, 2.0))]}
-            case["pdf"] = pdf
-            # fixed scales across one matching (thorough tier only): mu0 below, target above the (nf+1) threshold or reverse
-            case.update(
-                up=draw(st.booleans()), mass=draw(S.floats(4.0, 6.0)),
-                inv=draw(st.sampled_from(("exact", "expanded"))), npts=draw(st.integers(8, 10)), deg=draw(st.sampled_from((2, 3))),
-                lambdas=[1.0, 0.5, 0.25] if n == 3 else [1.0, 0.5, 0.25, 0.125], method=draw(st.sampled_from(("iterate-exact", "truncated"))),
-            )
-        else:
-            x0 = draw(S.floats(0.05, 0.3))
-            three = draw(st.booleans()) and not qed
-            case.update(
-                dt1=draw(S.floats(0.4, 0.6 if qed else 0.8)), up=draw(st.booleans()),
-                xgrid=[x0, math.sqrt(x0), 1.0] if three else [x0, 1.0],
-                lambdas=[1.0, 0.5, 0.25] if (qed or n == 3) else [1.0, 0.5, 0.25, 0.125],
-            )
-        return case
-
-    return e2e()
+    return st.integers(0, 2**31 - 1).map(lambda sd: e2e_case(tier, sd))
 
 
 def strategy(tier):
-    from hypothesis import strategies as st
-
-    # Both candidates are cheap to generate.  Which one is returned is a hash of the kernel candidate: Hypothesis re-uses
-    # and mutates choice sequences of earlier examples, so a *drawn* selector comes in bursts of 7-20 (expensive)
-    # end-to-end cases per shard (measured); a content hash changes with every mutation and gives a flat 1/n_sel rate.
+    # A kernel case is always drawn; whether it is replaced by an end-to-end case is decided by its content hash, and the
+    # end-to-end case is a function of the kernel case's drawn seed.  Reasons (both measured): Hypothesis re-uses and mutates
+    # choice sequences of earlier examples, so a *drawn* selector comes in bursts of 7-20 (expensive) end-to-end cases per
+    # shard, and an example that needs *more* draws than its mutated parent is dropped as an overrun (8 of 9 selected cases
+    # lost).  A content hash changes with every mutation and gives a flat 1/n_sel rate.
     from vf.core import jhash
 
-    n_sel = 800 if tier == "quick" else 400
-
-    @st.composite
-    def both(draw):
-        k = draw(strategy_kernel(tier))
-        e = draw(strategy_e2e(tier))
-        return e if int(jhash(k), 16) % n_sel == 0 else k
-
-    return both()
+    n_sel = 600 if tier == "quick" else 400
+    return strategy_kernel(tier).map(lambda k: k if int(jhash(k), 16) % n_sel != 0 else e2e_case(tier, k["seed"]))
 
 
 # --------------------------------------------------------------------------------------------- kernel half
@@ -224,9 +220,11 @@ def check_kernel(case):
     lams = case["lambdas"] if kind == "scaling" else case["lambdas"][:1]
     D = {s: [] for s in SCHEMES}
     floor = []
-    # the singlet dispatcher routes truncated and ordered-truncated to one function: one bucket for one root cause
-    mlabel = "truncated" if (sector == "singlet" and method == "ordered-truncated") else method
-    where = f"sector={sector}/n={n}" + (f",{m}" if qed else f"/method={mlabel}")
+    # coarse bucket coordinates: theory (qcd/qed) and, because the singlet dispatcher routes truncated and
+    # ordered-truncated to one function with its own history, whether that function is in use; the rest is in the message
+    trunc = sector == "singlet" and method in ("truncated", "ordered-truncated")
+    where = f"{'qed' if qed else 'qcd'}/{'singlet-truncated' if trunc else 'other-kernels'}"
+    what = f"sector={sector}, order=({n},{m}), method={method}"
 
     with SV.tower_kernels(tower) as qk:
         for lam in lams:
@@ -261,24 +259,24 @@ def check_kernel(case):
                 kv = {s: ker(s, s) for s in SCHEMES}
                 kthr = ker("expanded", "expanded-thr", True) if kind == "threshold" else None
             except Exception as e:  # noqa: BLE001 - repo code on in-domain input
-                res.fail(exc_bucket(f"{ID}/K/call/{where}", e), f"{e!r} at lambda={lam}")
+                res.fail(exc_bucket(f"{ID}/K/call/{where}", e), f"{what}: {e!r} at lambda={lam}")
                 return res
             if not np.all(np.isfinite(ku)) or not all(np.all(np.isfinite(v)) for v in kv.values()):
-                res.fail(f"{ID}/K/non-finite/{where}", f"non-finite kernel at lambda={lam}, couplings {b0}, {b1}")
+                res.fail(f"{ID}/K/non-finite/{where}", f"{what}: non-finite kernel at lambda={lam}, couplings {b0}, {b1}")
                 return res
             if kind == "xi1":
                 for s in SCHEMES:
                     if not np.array_equal(kv[s], ku):
                         res.fail(
                             f"{ID}/K/xi1-not-identical/{s}/{where}",
-                            f"xi=1: {s} kernel differs from the unvaried one by {SV.rel_diff(kv[s], ku):.3e} (a0={b0}, a1={b1})",
+                            f"{what}: xi=1: {s} kernel differs from the unvaried one by {SV.rel_diff(kv[s], ku):.3e} (a0={b0}, a1={b1})",
                         )
                 return res
             if kind == "threshold":
                 if not np.array_equal(kthr, ku):
                     res.fail(
                         f"{ID}/K/expanded-on-threshold-segment/{where}",
-                        f"expanded scheme on an intermediate (is_threshold) segment changes the kernel by {SV.rel_diff(kthr, ku):.3e}",
+                        f"{what}: expanded scheme on an intermediate (is_threshold) segment changes the kernel by {SV.rel_diff(kthr, ku):.3e}",
                     )
                 return res
             for s in SCHEMES:
@@ -296,7 +294,7 @@ def check_kernel(case):
         if not ex >= n - K_THR:
             res.fail(
                 f"{ID}/K/exponent/{s}/{where}",
-                f"{s} vs unvaried kernel: D(lambda)={['%.3e' % d for d in D[s]]} for lambda={lams} (usable {usable}), exponent "
+                f"{what}: {s} vs unvaried kernel: D(lambda)={['%.3e' % d for d in D[s]]} for lambda={lams} (usable {usable}), exponent "
                 f"{ex:.2f} < {n - K_THR}; order {order}, nf={nf}, xi^2={case['xi2']}, a=({a0},{a1}), iterations {iters}",
             )
     res.nontrivial = nt
